@@ -82,6 +82,27 @@ CHECKS.update({
     ),
 })
 
+CHECKS.update({
+    "C01": (
+        "hook on every io.save: fresh io.load + field-wise structural diff over every declared field, then two further save/load cycles checked as exact fixpoints (objects and JSON documents); seeded object-graph generator over shared pools; field-coverage tracker",
+        "Every collection saved in the run is re-loaded by a fresh call and compared field by field with the original (terms by label); repeated cycles are exact fixpoints. The run is inconclusive unless every declared field of every reachable class was exercised in a non-default state.",
+        "Simple-label terms, distinct feature labels, finite numbers; equality is pydantic/python == per field.",
+        "DESIGN.md §4 C01",
+    ),
+    "C02": (
+        "offline checker over the JSON text written by save (stdlib json, explicit reference-position schema + generic uuid backstop + parent order + defined == reachable by an independent graph walk) and an icontract class invariant on DataAdapter's lookup tables",
+        "Every document written in the run is closed under reference, has unique ids, lists parents first and defines exactly the reachable objects; the adapter tables stay consistent at every public-method exit.",
+        "Reference schema is hand-written from the format; tags identified by (label, value).",
+        "DESIGN.md §4 C02",
+    ),
+    "C18": (
+        "hook on every io.save comparing the recording paths in the JSON text with PurePosixPath.relative_to, failure-atomicity check of the target file, and a load under a second directory compared path by path",
+        "Every saved document stores paths relative to the audio directory, saving with an outside recording fails without touching the target, and loading maps A/x to B/x for every reachable recording.",
+        "Lexical paths without '..' or symlinks.",
+        "DESIGN.md §4 C18",
+    ),
+})
+
 NOT_YET = {}
 
 
